@@ -33,6 +33,19 @@ theorem zeroGuard_iff (a b : Rat) : zeroGuard a b = true ↔ a = 0 := by
 theorem zeroDiv_false {P : Params} (h : P.zeroDiv = false) : stepDen P.numR ≠ 0 := by
   simpa [Params.zeroDiv] using h
 
+/-- the final clamp puts the park position inside the original limits, whatever the centroid was -/
+theorem parkPos_mem (P : Params) (pk : Rat) :
+    P.low ≤ parkPos pk P.low P.high ∧ parkPos pk P.low P.high ≤ P.high := by
+  have h := low_le_high P
+  unfold parkPos
+  exact ⟨le_rmin (le_rmax_right _ _) h, rmin_le_right _ _⟩
+
+/-- ... and is the identity on centroids that already lie inside -/
+theorem parkPos_id {P : Params} {pk : Rat} (h1 : P.low ≤ pk) (h2 : pk ≤ P.high) :
+    parkPos pk P.low P.high = pk := by
+  unfold parkPos rmin rmax
+  split_ifs <;> linarith
+
 /-- number of steps per pass as a natural number: |num - 1| -/
 def L (P : Params) : Nat := (P.num - 1).natAbs
 
@@ -107,10 +120,10 @@ theorem finished_of_not_live {P : Params} {I : Resp} {N : Nat}
   | exited p => simp [iter, Phase.finished]
   | returned => simp [iter, Phase.finished]
 
-/-- an `exited (some p)` phase arises from a running state whose `peak` is `p` -/
+/-- an `exited p` phase arises from a running state whose (clamped) park position is `p` -/
 theorem exited_from_run {P : Params} {I : Resp} {n : Nat} {p : Option Rat}
     (h : iterN P I n (start0 P) = .exited p) :
-    ∃ m s, iterN P I m (start0 P) = .run s ∧ s.peak = p := by
+    ∃ m s, iterN P I m (start0 P) = .run s ∧ park P s = p := by
   induction n with
   | zero => simp [iterN, start0] at h
   | succ n ih =>
